@@ -12,7 +12,7 @@ git -C /repo worktree add --detach "$BASE/repo" HEAD -q || exit 2
 if ! git -C "$BASE/repo" apply "$PATCH"; then echo "PATCH DOES NOT APPLY"; git -C /repo worktree remove --force "$BASE/repo"; rm -rf "$BASE"; exit 2; fi
 rsync -a --exclude work/target --exclude work/run --exclude work/replays --exclude .git /verif/ "$BASE/verif/"
 grep -rl "/repo" "$BASE/verif/check" "$BASE/verif/setup.sh" "$BASE/verif/tools" "$BASE/verif/harness" --include='*' 2>/dev/null \
-  | grep -v "/target/" | xargs sed -i "s#/repo#$BASE/repo#g"
+  | grep -v "/target/" | xargs sed -i -E "s#/repo([^A-Za-z0-9_]|\$)#$BASE/repo\\1#g"
 mkdir -p "$BASE/verif/work"
 # reuse compiled dependencies: copy the cargo target dir (a real copy: hard links would let the scratch build rewrite /verif's artifacts)
 cp -a /verif/work/target "$BASE/verif/work/target"
